@@ -290,6 +290,13 @@ def c06(ctx, res):
         # running the object behaves like running the source
         def strip(out, name):
             return out.replace(name.encode(), b"<file>")
+        if ro is not None and ro.rc != e["ref"]["exit"]:
+            # (the two runs agreeing with each other is not enough when both are turned away at the door)
+            detail["run_source"] = ra.brief()
+            detail["run_object"] = ro.brief()
+            res.violate("C06/object-file-does-not-run-like-the-reference", "running %s ends with status %s, the reference machine ends this image with %s (%s)"
+                        % (obj, ro.rc, e["ref"]["exit"], e["ref"]["stop"]), detail)
+            continue
         if ro is None or ra.rc != ro.rc or strip(ra.out, src) != strip(ro.out, obj):
             detail["run_source"] = ra.brief()
             detail["run_object"] = ro.brief() if ro else None
